@@ -9,7 +9,7 @@ from ..core import EPS32, given_law, plain_law
 from .. import gen
 from ..oracles import vk
 
-RULE = ("r0 log-uniform [0.01,5], L0 log-uniform [0.1,1e7] (the large-L0 tail on purpose), separations as scalars, lists, "
+RULE = ("r0 log-uniform [0.01,5], L0 log-uniform [0.1,1e10] (the large-L0 tail on purpose), separations as scalars, lists, "
         "float64 and float32 arrays with r/L0 log-uniform in [1e-6,1e3] plus forced exact zeros; point sets of 2-40 "
         "points in the plane incl. coincident and collinear points. Oracles: independent float64 closed forms (series for "
         "small arguments), numerical Hankel transform of the screen spectrum, scaling / monotonicity / saturation "
@@ -39,7 +39,7 @@ def quiet(f, *a):
 @st.composite
 def sep_cases(draw):
     r0 = draw(gen.logfloat(0.01, 5.0))
-    L0 = draw(gen.logfloat(0.1, 1e7))
+    L0 = draw(gen.logfloat(0.1, 1e10))
     n = draw(st.integers(1, 12))
     rel = [draw(gen.logfloat(1e-6, 1e3)) for _ in range(n)]
     zeros = draw(st.sampled_from([0, 0, 1, 2]))
@@ -104,8 +104,9 @@ def sep_body(ctx, case):
     pos = rs > 0
     KR = 0.17253 / (2 * vk.B0_COEF)
     ctx.require(abs(KR - 1) < 1e-3, "rounding band")
-    # absolute error model: cancellation 1 - x^nu K(x) at small x costs ~4 eps * 2B0
-    tolabs = (64 * EPS32 if f32 else 4e-15) * 2 * B0
+    # D is judged on its own scale: 1e-9 of D(r) (the problem is well conditioned - a cancellation-free evaluation of
+    # 1 - x^nu K_nu(x) by its ascending series is good to 1e-14); separations stored as float32 are exact numbers too
+    tolabs = 1e-300
     err = np.abs(d - KR * Dxs)
     bad = err > 1e-9 * Dxs + tolabs
     ctx.residual("D_vk minus (0.17253/0.172629) D_exact, in units of tolerance", float(np.max(err / (1e-9 * Dxs + tolabs))), 1.0)
